@@ -15,6 +15,8 @@ SimStep ==
   \/ \E k \in Inc : SNLookup(k) /\ Cmd("SNLookup", k)
   \/ \E k \in Inc : SNSend(k) /\ Cmd("SNSend", k)
   \/ \E k \in Inc : SClose(k) /\ Cmd("SClose", k)
+  \/ \E k \in Inc : SAck(k) /\ Cmd(IF ackReg # None THEN "SAck" ELSE "SAckRetry", k)
+  \/ \E k \in Inc : SRetry(k) /\ Cmd("SRetry", k)
   \/ \E k \in Inc : SUnreg(k) /\ Cmd("SUnreg", k)
   \/ \E k \in Inc : SUnreg2(k) /\ Cmd("SUnreg2", k)
   \/ \E k \in Inc : SRmChan(k) /\ Cmd("SRmChan", k)
